@@ -4,7 +4,7 @@ what the change needs, how it was confirmed and which checks report it (from wor
 import glob, json, os, re, shutil
 V = "/verif"
 conf = {}
-for f in glob.glob(V + "/work/seedlogs/confirm_*.log"):
+for f in glob.glob(V + "/work/seedlogs/confirm*_*.log"):
     for ln in open(f):
         m = re.match(r"id=(\S+) (.*)", ln.strip())
         if m: conf[m.group(1)] = m.group(2)
